@@ -729,6 +729,7 @@ func (o c11op) id() string {
 type c11scfg struct {
 	flavour string
 	threads [][]c11op
+	bound   int // preemption bound of this scenario
 }
 
 func (c c11scfg) id() string {
@@ -874,13 +875,20 @@ func c11Scenarios(thorough bool) []c11scfg {
 	C := c11op{kind: "C"}
 	T := func(ops ...c11op) []c11op { return ops }
 
-	shapes := [][][]c11op{
+	// small: <= 3 operations; large: 4 operations or 3 threads. The real processor spawns a
+	// goroutine per Process and a context watcher per Process/Save, so its large scenarios
+	// have 20-35 thousand executions already with one preemption.
+	small := [][][]c11op{
 		{T(P("F1a")), T(S("F1a"))},
 		{T(P("F1a"), S("F1a")), T(S("F1a"))},
 		{T(P("F1a"), S("F1a")), T(C)},
+		{T(P("F1a"), X("F1a")), T(S("F1a"))},
+		{T(P("F1a"), S("F1a")), T(P("F1b"))},
+		{T(P("F1a"), S("F1a")), T(S("F1b"))},
+	}
+	large := [][][]c11op{
 		{T(P("F1a"), S("F1a")), T(P("F1b"), S("F1b"))},
 		{T(P("F1a"), S("F1a")), T(P("F2a"), S("F2a"))},
-		{T(P("F1a"), X("F1a")), T(S("F1a"))},
 		{T(P("F1a"), S("F1a")), T(P("F1a"), S("F1a"))},
 		{T(P("F1a"), S("F1a")), T(P("F1b"), X("F1b"))},
 		{T(P("F1a")), T(S("F1a")), T(C)},
@@ -888,32 +896,47 @@ func c11Scenarios(thorough bool) []c11scfg {
 		{T(P("F1a"), S("F1a")), T(P("F1b")), T(S("F1b"))},
 		{T(P("F2a"), S("F2a")), T(P("F1a")), T(S("F1a"))},
 	}
-
-	if thorough {
-		shapes = append(shapes,
-			[][]c11op{T(P("F1a"), S("F1a")), T(P("F1b"), S("F1b")), T(C)},
-			[][]c11op{T(P("F1a"), S("F1a")), T(P("F1b"), S("F1b")), T(P("F2a"), S("F2a"))},
-			[][]c11op{T(P("F1a"), S("F1a"), P("F1b"), S("F1b")), T(S("F1a"), S("F1b"))},
-			[][]c11op{T(P("F1a"), C, P("F1a"), S("F1a")), T(S("F1a"))},
-		)
+	huge := [][][]c11op{
+		{T(P("F1a"), S("F1a")), T(P("F1b"), S("F1b")), T(C)},
+		{T(P("F1a"), S("F1a")), T(P("F1b"), S("F1b")), T(P("F2a"), S("F2a"))},
+		{T(P("F1a"), S("F1a"), P("F1b"), S("F1b")), T(S("F1a"), S("F1b"))},
+		{T(P("F1a"), C, P("F1a"), S("F1a")), T(S("F1a"))},
 	}
 
 	var cfgs []c11scfg
 
-	for _, fl := range []string{"real", "stub"} {
+	add := func(fl string, shapes [][][]c11op, bound int) {
 		for _, sh := range shapes {
-			cfgs = append(cfgs, c11scfg{flavour: fl, threads: sh})
+			cfgs = append(cfgs, c11scfg{flavour: fl, threads: sh, bound: bound})
 		}
+	}
+
+	switch {
+	case thorough:
+		add("real", small, 2)
+		add("real", large, 1)
+		add("stub", small, 2)
+		add("stub", large, 2)
+		add("stub", huge, 2)
+	default:
+		add("real", small, 1)
+		add("stub", small, 2)
+		add("stub", large, 1)
 	}
 
 	return cfgs
 }
 
 func c11PartS(r *vlib.Run, item *int) {
-	bound := vlib.Pick(r, 1, 2)
-	r.Set("s_preemption_bound", bound)
-
 	cfgs := c11Scenarios(r.Thorough())
+
+	var boundtxt []string
+	for _, c := range cfgs {
+		boundtxt = append(boundtxt, fmt.Sprintf("%s: %d", c.id(), c.bound))
+	}
+
+	r.Set("s_preemption_bound_per_scenario", boundtxt)
+
 	r.Set("s_scenarios_enumerated", len(cfgs))
 
 	for _, c := range cfgs {
@@ -943,7 +966,7 @@ func c11PartS(r *vlib.Run, item *int) {
 			continue
 		}
 
-		res := vsched.Explore(vsched.Config{Name: id, Bound: bound, Build: build, Expired: r.Expired, MaxFound: 3, Horizon: 5000})
+		res := vsched.Explore(vsched.Config{Name: id, Bound: c.bound, Build: build, Expired: r.Expired, MaxFound: 3, Horizon: 5000})
 		if res.EngineError != "" {
 			panic("engine error in " + id + ": " + res.EngineError)
 		}
@@ -957,7 +980,11 @@ func c11PartS(r *vlib.Run, item *int) {
 		if res.Capped != "" {
 			r.Cap(res.Capped + " in " + id)
 		} else {
-			r.Min("s_preemption_bound_completed", int64(res.BoundCompleted))
+			r.Min("s_preemption_bound_completed_min", int64(res.BoundCompleted))
+
+			if res.BoundCompleted != c.bound {
+				r.Cap(fmt.Sprintf("bound %d of %d in %s", res.BoundCompleted, c.bound, id))
+			}
 		}
 
 		r.Max("s_max_points_per_execution", int64(res.MaxPoints))
